@@ -6,7 +6,7 @@ package forwarder
 // C12: faults beyond the proxy become a clean, well-formed error response (or a close).
 //
 //vf:assume C12-map: errors are drawn from a constructor pool (net.OpError timeout/non-timeout for dial/read/write, tls.RecordHeaderError with 5 symbolic header bytes, tls.CertificateVerificationError, tls.AlertError from {40,42,80,255}, martian.ErrorStatus with a status from {400,404,418,499,502,599}, the proxy's own authentication/deny/prohibited errors, context.Canceled, an unclassified error), each bare, wrapped by fmt.Errorf("%w") or by *url.Error; request scheme http/https
-//vf:assume C12-hostile: the client sends one of 6 prefixes (nothing, partial request lines, a TLS record start, a request with a dangling Content-Length) followed by 4 (quick) / 6 (thorough) arbitrary ASCII bytes and closes; non-ASCII junk and longer streams are outside
+//vf:assume C12-hostile: the client sends one of 8 prefixes (nothing, partial request lines, a TLS record start, a request with a dangling Content-Length, an intercepted CONNECT followed directly by the junk or by a partial request line) followed by 4 (quick) / 6 (thorough) arbitrary ASCII bytes and closes; non-ASCII junk and longer streams are outside
 //vf:assume C12-pipe: faults are injected at the next hop of the real connection loop: round-trip error (from the pool), dial failure of a CONNECT, write failure on the client socket after k bytes, origin body (Content-Length or chunked, plain or text/event-stream) failing after 0/2/4 of 6 bytes with a timeout / non-timeout / EOF / decoding error; truncation of a real upstream reply inside net/http's Transport is outside
 
 import (
@@ -23,6 +23,7 @@ import (
 	"net/url"
 
 	"github.com/saucelabs/forwarder/internal/martian"
+	"github.com/saucelabs/forwarder/internal/martian/mitm"
 	"github.com/saucelabs/forwarder/internal/vfrt"
 )
 
@@ -237,7 +238,7 @@ func vfH_C12_pipe() {
 	}
 }
 
-//vf:harness property=C12 nopanic reach=hostile-answered,hostile-closed-silently steps=4000000
+//vf:harness property=C12 nopanic reach=hostile-answered,hostile-closed-silently,hostile-inside-mitm steps=4000000
 func vfH_C12_hostile() {
 	// arbitrary client bytes never crash the connection loop; whatever is written back is one complete response
 	cfg := HTTPProxyConfig{}
@@ -248,8 +249,20 @@ func vfH_C12_hostile() {
 	if vfrt.Thorough() {
 		n = 6
 	}
-	prefix := []string{"", "GET ", "GET / HTTP/1.1\r\n", "CONNECT ", "\x16\x03\x01", "GET http://a/ HTTP/1.1\r\nHost: a\r\nContent-Length: "}[vfrt.Choice("prefix", 6)]
+	prefixes := []string{"", "GET ", "GET / HTTP/1.1\r\n", "CONNECT ", "\x16\x03\x01", "GET http://a/ HTTP/1.1\r\nHost: a\r\nContent-Length: ",
+		// inside an intercepted tunnel (MITM hand-off; the junk is what the client sends instead of a TLS hello or a request)
+		"CONNECT a:80 HTTP/1.1\r\nHost: a:80\r\n\r\n", "CONNECT a:80 HTTP/1.1\r\nHost: a:80\r\n\r\nGET / HTTP/1.1\r\n"}
+	pi := vfrt.Choice("prefix", len(prefixes))
+	prefix := prefixes[pi]
+	if pi >= 6 {
+		hp.proxy.MITMConfig = &mitm.Config{}
+		// a first byte 0x16 would start a real TLS handshake with a generated certificate, which is outside
+		vfrt.Reach("hostile-inside-mitm")
+	}
 	junk := vfrt.Bytes("junk", n)
+	if pi == 6 {
+		vfrt.Assume(junk[0] != 0x16)
+	}
 	for i := range junk {
 		vfrt.Assume(junk[i] < 0x80)
 	}
@@ -265,8 +278,14 @@ func vfH_C12_hostile() {
 	}
 	vfrt.Reach("hostile-answered")
 	br := bufio.NewReader(bytes.NewReader(out))
+	first := true
 	for {
-		res, err := http.ReadResponse(br, &http.Request{Method: "GET"})
+		method := "GET"
+		if first && pi >= 6 {
+			method = "CONNECT"
+		}
+		first = false
+		res, err := http.ReadResponse(br, &http.Request{Method: method})
 		vfrt.Assert(err == nil, "hostile/output-is-well-formed")
 		if err != nil {
 			return
